@@ -75,9 +75,9 @@ LibSigs ==
   @@ ("IC3" :> Sig(0, <<>>, Nm("IU", <<>>)))
   @@ ("ISome" :> Sig(1, <<SV(1)>>, Nm("IOpt", <<SV(1)>>)))
 
-\* the cases of the (non generic) union IU: payload types
-UnionOfCase == [IC1 |-> "IU", IC2 |-> "IU", IC3 |-> "IU"]
-CasePayload == [IC1 |-> TInt, IC2 |-> Tu(<<TInt, TStr>>), IC3 |-> Unit]
+\* the cases of the unions IU and IOpt<T>: payload types (scheme variables = the union's type parameters)
+UnionOfCase == [IC1 |-> "IU", IC2 |-> "IU", IC3 |-> "IU", ISome |-> "IOpt", INone |-> "IOpt"]
+CasePayload == [IC1 |-> TInt, IC2 |-> Tu(<<TInt, TStr>>), IC3 |-> Unit, ISome |-> SV(1), INone |-> Unit]
 
 ---------------------------------------------------------------------------
 \* instantiate scheme variable k as the fresh variable t<base+k>
@@ -149,10 +149,14 @@ GenE(sigs, e, env, st) ==
          IN [t |-> me[3], st |-> St(a.st.eqs \o [i \in 1..Len(a.ts) |-> <<a.ts[i], me[2][i]>>], a.st.n)]
     [] e[1] = "match" ->                                \* match x with | C v -> body ... [| _ -> default]: x is of the union, v of the case's payload type,
                                                         \* all bodies have one type
+         \* (the target's type is a union type when the match is met - an annotated parameter or a local bound to a constructor
+         \* application; its type arguments instantiate the payload types)
          LET u == UnionOfCase[e[3][1][1]]
+             tx == env[e[2]]
+             targs == IF tx[1] = "named" /\ tx[2] = u THEN tx[3] ELSE <<>>
              arms == e[3]
              bodies == [i \in 1..Len(arms) |-> arms[i][3]] \o (IF Len(e[4]) = 0 THEN <<>> ELSE <<e[4][1]>>)
-             envOf(i) == IF i <= Len(arms) /\ arms[i][2] # "" THEN Ext(env, arms[i][2], CasePayload[arms[i][1]]) ELSE env
+             envOf(i) == IF i <= Len(arms) /\ arms[i][2] # "" THEN Ext(env, arms[i][2], InstArgs(CasePayload[arms[i][1]], targs)) ELSE env
              RECURSIVE Go(_, _)
              Go(i, st0) == IF i > Len(bodies) THEN [ts |-> <<>>, st |-> st0]
                            ELSE LET h == GenE(sigs, bodies[i], envOf(i), st0)
@@ -160,7 +164,7 @@ GenE(sigs, e, env, st) ==
                                 IN [ts |-> <<h.t>> \o r.ts, st |-> r.st]
              g == Go(1, st)
          IN [t |-> g.ts[1],
-             st |-> St(g.st.eqs \o <<<<env[e[2]], Nm(u, <<>>)>>>> \o [i \in 1..(Len(g.ts) - 1) |-> <<g.ts[1], g.ts[i + 1]>>], g.st.n)]
+             st |-> St(g.st.eqs \o <<<<env[e[2]], Nm(u, targs)>>>> \o [i \in 1..(Len(g.ts) - 1) |-> <<g.ts[1], g.ts[i + 1]>>], g.st.n)]
     [] e[1] = "lam" ->
          LET ty == TV(st.n + 1)
              b == GenE(sigs, e[3], Ext(env, e[2], ty), St(st.eqs, st.n + 1))
